@@ -99,13 +99,13 @@ fn skipnan_f32_2d<const R: usize, const C: usize, const RC: usize>(layout: u8) {
     kani::cover!(cnt == 1 && vals[RC - 1] == vals[RC - 1], "W: only the last element is a number");
 }
 
-//@ prop=C14,C20 tier=quick mem=6 timeout=2700 inst="ArrayView2<f32> 2x2, F-order" bounds="all bit patterns; unwind 8"
+//@ prop=C14,C20:thorough tier=quick mem=6 timeout=2700 inst="ArrayView2<f32> 2x2, F-order" bounds="all bit patterns; unwind 8"
 #[kani::proof]
 #[kani::unwind(8)]
 fn c14_skipnan_f32_2x2_f() {
     skipnan_f32_2d::<2, 2, 4>(1);
 }
-//@ prop=C14,C20 tier=quick mem=6 timeout=2700 inst="ArrayView2<f32> 2x2, stepped view of a 5x5 parent" bounds="all bit patterns; unwind 8"
+//@ prop=C14,C20:thorough tier=quick mem=6 timeout=2700 inst="ArrayView2<f32> 2x2, stepped view of a 5x5 parent" bounds="all bit patterns; unwind 8"
 #[kani::proof]
 #[kani::unwind(8)]
 fn c14_skipnan_f32_2x2_stepped() {
@@ -207,7 +207,7 @@ fn map_axis_skipnan<const R: usize, const C: usize, const RC: usize>(layout: u8,
     kani::cover!(out[0].0 == lane_len, "W: first lane complete");
 }
 
-//@ prop=C14,C04,C03 tier=quick mem=6 timeout=2700 inst="map_axis_skipnan_mut on ArrayViewMut2<Option<i8>> 2x3 C-order, Axis(0) (non-contiguous lanes)" bounds="all None placements; unwind 10"
+//@ prop=C14,C04:thorough,C03 tier=quick mem=6 timeout=2700 inst="map_axis_skipnan_mut on ArrayViewMut2<Option<i8>> 2x3 C-order, Axis(0) (non-contiguous lanes)" bounds="all None placements; unwind 10"
 #[kani::proof]
 #[kani::unwind(10)]
 fn c14_map_axis_skipnan_opt_2x3_ax0() {
